@@ -106,6 +106,7 @@ namespace
         O_FILL     = 1u << 10, // C17 fill patterns
         O_CAPS     = 1u << 11, // C18
         O_BADREL   = 1u << 12, // C16: covered invalid releases are reported (forked child)
+        O_SIBLING  = 1u << 13, // C08: composable deallocation recognises exactly its own memory
     };
 
     // op kinds (index = kind id). Order is part of the replay format only through names.
@@ -135,6 +136,9 @@ namespace
         K_arm_fault,
         K_replay_unwind,
         K_bad_release,
+        K_sib_alloc,
+        K_sib_dealloc,
+        K_probe_foreign,
         K__count
     };
     const char* kind_names[K__count] = {"alloc_node", "alloc_array", "try_alloc_node",
@@ -142,7 +146,8 @@ namespace
                                         "unwind", "next_iteration", "shrink_to_fit", "reserve",
                                         "move_ctor", "move_assign", "swap", "zombie", "sweep",
                                         "cycle", "drain", "fill_block", "exhaust", "probe",
-                                        "arm_fault", "replay_unwind", "bad_release"};
+                                        "arm_fault", "replay_unwind", "bad_release", "sib_alloc",
+                                        "sib_dealloc", "probe_foreign"};
 
     struct Mode
     {
@@ -160,52 +165,57 @@ namespace
     // weights:                an  aa tn ta de ov mk uw ni sh rs mc ma sw zo sp cy dr fb ex pr af ru
     const Mode modes[] = {
         {"C01", O_CORE | O_NOREPORT | O_FILL, ALL_FAM,
-         {30, 12, 6, 4, 30, 1, 4, 4, 4, 2, 2, 2, 2, 1, 2, 3, 1, 1, 2, 1, 0, 0, 1, 0}, 200, false,
+         {30, 12, 6, 4, 30, 1, 4, 4, 4, 2, 2, 2, 2, 1, 2, 3, 1, 1, 2, 1, 0, 0, 1, 0, 0, 0, 0}, 200, false,
          "history with >=8 successful allocations, >=1 release between two allocations, and one of: "
          "upstream growth inside the history / array and node live together / >=2 buckets of a "
          "collection used / a move with live allocations"},
         {"C02", O_CORE | O_ALIGN, ALL_FAM,
-         {30, 20, 6, 6, 20, 0, 3, 3, 3, 1, 2, 1, 1, 0, 0, 3, 0, 1, 4, 0, 0, 0, 1, 0}, 200, false,
+         {30, 20, 6, 6, 20, 0, 3, 3, 3, 1, 2, 1, 1, 0, 0, 3, 0, 1, 4, 0, 0, 0, 1, 0, 0, 0, 0}, 200, false,
          "case with a successful request that has alignment>=8, or an array with count>=2, or sits in "
          "a position class (first in a fresh block / fills block / after growth / after unwind)"},
         {"C03", O_CORE | O_FAIL, ALL_FAM,
-         {20, 8, 8, 6, 16, 14, 2, 2, 3, 1, 1, 1, 1, 0, 0, 2, 0, 1, 3, 6, 0, 6, 0, 0}, 160, true,
+         {20, 8, 8, 6, 16, 14, 2, 2, 3, 1, 1, 1, 1, 0, 0, 2, 0, 1, 3, 6, 0, 6, 0, 0, 0, 0, 0}, 160, true,
          ">=1 failed request (oversize / exhaustion / injected upstream fault) followed by >=1 "
          "successful allocation and >=1 release of memory allocated before the failure"},
         {"C04", O_CORE | O_CONSERVE, FB(F_POOL) | FB(F_COLL),
-         {30, 16, 4, 4, 30, 0, 0, 0, 0, 0, 3, 1, 1, 0, 0, 2, 8, 6, 0, 0, 0, 0, 0, 0}, 200, false,
+         {30, 16, 4, 4, 30, 0, 0, 0, 0, 0, 3, 1, 1, 0, 0, 2, 8, 6, 0, 0, 0, 0, 0, 0, 0, 0, 0}, 200, false,
          "segment with >=1 array whose byte count is not a multiple of the node size, or >=6 releases "
          "in an order different from allocation order and its reverse, or a cycle with k>=3"},
         {"C05", O_CORE | O_UPSTREAM, FB(F_POOL) | FB(F_COLL) | FB(F_STACK) | FB(F_ITER),
-         {30, 10, 4, 2, 20, 0, 6, 8, 3, 6, 2, 3, 3, 2, 3, 1, 0, 2, 4, 2, 0, 4, 0, 0}, 200, true,
+         {30, 10, 4, 2, 20, 0, 6, 8, 3, 6, 2, 3, 3, 2, 3, 1, 0, 2, 4, 2, 0, 4, 0, 0, 0, 0, 0}, 200, true,
          ">=3 upstream blocks acquired and one of: a shrink_to_fit with cached blocks / a move or swap "
          "with >=2 blocks / an injected failure at k>=2 / destruction with live allocations"},
         {"C06", O_CORE | O_UNWIND, FB(F_STACK),
-         {40, 10, 6, 2, 4, 0, 14, 10, 0, 4, 0, 1, 1, 0, 0, 3, 0, 0, 4, 0, 0, 0, 8, 0}, 200, false,
+         {40, 10, 6, 2, 4, 0, 14, 10, 0, 4, 0, 1, 1, 0, 0, 3, 0, 0, 4, 0, 0, 0, 8, 0, 0, 0, 0}, 200, false,
          "an unwind that drops >=1 block with >=2 nested markers alive and a replay of >=3 requests"},
         {"C07", O_CORE | O_ITER, FB(F_ITER),
-         {40, 10, 10, 4, 4, 0, 0, 0, 16, 0, 0, 2, 2, 0, 1, 4, 0, 0, 4, 2, 3, 0, 0, 0}, 200, false,
+         {40, 10, 10, 4, 4, 0, 0, 0, 16, 0, 0, 2, 2, 0, 1, 4, 0, 0, 4, 2, 3, 0, 0, 0, 0, 0, 0}, 200, false,
          ">=N+1 next_iteration calls with allocations of >=2 iterations alive at once (N>=2), or a "
          "block size with size mod N != 0"},
         {"C12", O_CORE | O_UPSTREAM | O_MOVE, FB(F_POOL) | FB(F_COLL) | FB(F_STACK) | FB(F_ITER),
-         {30, 10, 4, 2, 20, 0, 3, 3, 3, 2, 2, 8, 8, 5, 6, 3, 0, 1, 2, 3, 0, 0, 0, 0}, 160, false,
+         {30, 10, 4, 2, 20, 0, 3, 3, 3, 2, 2, 8, 8, 5, 6, 3, 0, 1, 2, 3, 0, 0, 0, 0, 0, 0, 0}, 160, false,
          "a move/move-assignment/swap with >=3 live allocations (>=2 blocks for growing subjects), "
          "followed by >=2 more operations on the new owner, moved-from object destroyed"},
         {"C15", O_CORE | O_LEAK, FB(F_POOL) | FB(F_COLL) | FB(F_STACK),
-         {30, 16, 0, 0, 24, 0, 2, 2, 0, 1, 1, 5, 5, 2, 3, 1, 0, 1, 0, 0, 0, 0, 0, 0}, 120, false,
+         {30, 16, 0, 0, 24, 0, 2, 2, 0, 1, 1, 5, 5, 2, 3, 1, 0, 1, 0, 0, 0, 0, 0, 0, 0, 0, 0}, 120, false,
          "net != 0 at destruction after >=1 move, or >=1 array with element size != node size"},
         {"C16", O_CORE | O_NOREPORT | O_BADREL, FB(F_POOL) | FB(F_COLL) | FB(F_STACK),
-         {30, 10, 4, 2, 40, 0, 4, 6, 0, 2, 1, 1, 1, 0, 0, 2, 0, 4, 0, 0, 0, 0, 0, 10}, 200, false,
+         {30, 10, 4, 2, 40, 0, 4, 6, 0, 2, 1, 1, 1, 0, 0, 2, 0, 4, 0, 0, 0, 0, 0, 10, 0, 0, 0}, 200, false,
          "valid prefix with >=6 releases in non-monotonic address order (no report may fire) followed by a "
          "covered invalid release executed in a forked child, or such a valid history without a bad call"},
         {"C17", O_CORE | O_FILL, ALL_FAM,
-         {30, 12, 6, 4, 30, 0, 3, 3, 3, 1, 1, 1, 1, 0, 0, 3, 0, 2, 2, 0, 0, 0, 0, 0}, 160, false,
+         {30, 12, 6, 4, 30, 0, 3, 3, 3, 1, 1, 1, 1, 0, 0, 3, 0, 2, 2, 0, 0, 0, 0, 0, 0, 0, 0}, 160, false,
          "fill-enabled case with >=4 fresh allocations checked for the new-memory pattern and >=2 "
          "releases to a pool checked for the freed-memory pattern"},
         {"C18", O_CORE | O_CAPS, FB(F_POOL) | FB(F_COLL) | FB(F_STACK) | FB(F_ITER) | FB(F_STATIC),
-         {30, 14, 6, 4, 24, 6, 3, 3, 3, 1, 4, 1, 1, 0, 0, 1, 0, 1, 3, 1, 10, 0, 0, 0}, 160, false,
+         {30, 14, 6, 4, 24, 6, 3, 3, 3, 1, 4, 1, 1, 0, 0, 1, 0, 1, 3, 1, 10, 0, 0, 0, 0, 0, 0}, 160, false,
          "history with >=1 array and >=1 upstream growth whose counter deltas were all checked, or a "
          ">=1 successful capacity probe"},
+        {"C08", O_CORE | O_SIBLING, FB(F_POOL) | FB(F_COLL) | FB(F_STACK) | FB(F_ITER),
+         {20, 8, 16, 8, 24, 0, 2, 2, 2, 1, 1, 1, 1, 0, 0, 2, 0, 1, 2, 3, 0, 0, 0, 0, 24, 10, 30}, 160, false,
+         "two sibling allocators on one slab with >=1 foreign-pointer probe answered while both hold live "
+         "allocations, and the probing allocator was full (a try_ allocation failed) at least once or "
+         "the blocks of the siblings are adjacent (zero gap)"},
     };
 
     const Mode* find_mode(const std::string& prop)
@@ -262,6 +272,8 @@ namespace
         Ctx                        ctx;
         std::unique_ptr<ISubject>  s;
         std::vector<Live>          lives;
+        std::unique_ptr<ISubject>  s2;     // C08: sibling allocator on the same slab
+        std::vector<Live>          lives2; // ... and its live allocations
         std::map<uintptr_t, size_t> by_addr; // start -> bytes (live ranges)
         std::vector<MarkerRec>     markers;
         uint32_t                   next_id = 1;
@@ -357,6 +369,12 @@ namespace
         void sweep(const char* when)
         {
             for (auto& l : lives)
+            {
+                check_pattern(l, when);
+                if (failed)
+                    return;
+            }
+            for (auto& l : lives2)
             {
                 check_pattern(l, when);
                 if (failed)
@@ -1815,6 +1833,164 @@ namespace
             ci.classes.insert("fault-armed");
         }
 
+        //--- C08: a sibling allocator on the same slab; foreign-pointer probes ---//
+        unsigned                  n_probes = 0, n_probes_adjacent = 0;
+        bool                      adjacent_blocks = false;
+
+        void make_sibling(const std::vector<const Entry*>& cand, const Entry& own)
+        {
+            const Entry* e = &own;
+            if (P(11) % 4 == 3)
+                e = cand[(P(11) / 4) % cand.size()];
+            Ctx c2        = ctx;
+            c2.obj_above  = !ctx.obj_above;
+            c2.next_owner = 5000; // distinct owner lineage
+            try
+            {
+                s2 = e->make(c2);
+            }
+            catch (std::bad_alloc&)
+            {
+                s2.reset();
+            }
+        }
+        void op_sib_alloc(const Op& op)
+        {
+            if (!s2)
+            {
+                ++ci.noops;
+                return;
+            }
+            std::swap(s, s2); // resolve the request against the sibling
+            Req  r;
+            bool ok = make_req(op, op.a % 5 == 0 && s->arrays_ok, s->has_composable && op.c % 2, r);
+            std::swap(s, s2);
+            if (!ok)
+            {
+                ++ci.noops;
+                return;
+            }
+            void* p = nullptr;
+            try
+            {
+                p = r.iface == COMPOSABLE ? s2->try_alloc(r) : s2->alloc(r);
+            }
+            catch (std::bad_alloc&)
+            {
+                return;
+            }
+            if (!p)
+                return;
+            // the sibling's allocations take part in the same disjointness / pattern model
+            char* cp = static_cast<char*>(p);
+            size_t n = r.bytes();
+            auto it = by_addr.upper_bound(reinterpret_cast<uintptr_t>(cp));
+            bool clash = false;
+            if (it != by_addr.begin())
+            {
+                auto pr = std::prev(it);
+                clash |= pr->first + pr->second > reinterpret_cast<uintptr_t>(cp);
+            }
+            clash |= it != by_addr.end() && reinterpret_cast<uintptr_t>(cp) + n > it->first;
+            if (clash)
+            {
+                fail("sibling-overlap", "allocations of two sibling allocators overlap");
+                return;
+            }
+            Live l;
+            l.id    = next_id++;
+            l.p     = cp;
+            l.bytes = n;
+            l.req   = r;
+            l.seq   = 0;
+            l.iter_born = 0;
+            for (size_t i = 0; i < n; ++i)
+                cp[i] = char(pat(l.id, i));
+            lives2.push_back(l);
+            by_addr[reinterpret_cast<uintptr_t>(cp)] = n;
+        }
+        void op_sib_dealloc(const Op& op)
+        {
+            if (!s2 || lives2.empty() || !s2->releasable)
+            {
+                ++ci.noops;
+                return;
+            }
+            size_t i = op.a % lives2.size();
+            Live   l = lives2[i];
+            check_pattern(l, "(sibling's allocation) at its release");
+            if (failed)
+                return;
+            bool ok = true;
+            if (l.req.iface == COMPOSABLE)
+                ok = s2->try_dealloc(l.p, l.req);
+            else
+                s2->dealloc(l.p, l.req);
+            if (!ok)
+                fail("own-rejected", "try_deallocate returned false for the allocator's own live allocation");
+            by_addr.erase(reinterpret_cast<uintptr_t>(l.p));
+            lives2.erase(lives2.begin() + long(i));
+        }
+        // try_deallocate on X for a live allocation of Y: must be rejected and change nothing
+        void op_probe_foreign(const Op& op)
+        {
+            if (!s2 || !has(O_SIBLING))
+            {
+                ++ci.noops;
+                return;
+            }
+            bool       x_probes = op.b % 2 == 0; // X (s) probes a pointer of Y (s2), or vice versa
+            ISubject*  prober = x_probes ? s.get() : s2.get();
+            auto&      victims = x_probes ? lives2 : lives;
+            std::vector<size_t> cand;
+            for (size_t i = 0; i < victims.size(); ++i)
+                if (!victims[i].user_released)
+                    cand.push_back(i);
+            if (cand.empty() || !prober->has_composable)
+            {
+                ++ci.noops;
+                return;
+            }
+            // prefer victims that touch a block boundary of the prober's blocks
+            size_t pick = cand[op.a % cand.size()];
+            Live   v    = victims[pick];
+            Req    r    = v.req;
+            if (op.c % 3 == 0 && prober->fam == F_POOL)
+            {
+                // ask with the prober's own node size so that only the ownership test can say no
+                r.array = false;
+                r.count = 1;
+                r.size  = prober->nominal_size();
+                r.align = 1;
+            }
+            std::vector<size_t> c0, c1;
+            prober->caps(c0, r.size <= prober->max_node() ? r.size : 0);
+            bool res = prober->try_dealloc(v.p, r);
+            prober->caps(c1, r.size <= prober->max_node() ? r.size : 0);
+            ++n_probes;
+            if (adjacent_blocks)
+                ++n_probes_adjacent;
+            if (res)
+            {
+                fail("foreign-accepted", "try_deallocate returned true for a live allocation of a sibling allocator");
+                return;
+            }
+            if (c0 != c1)
+            {
+                fail("foreign-changed-state", "a rejected try_deallocate changed the allocator's capacity figures");
+                return;
+            }
+            size_t reach = 0;
+            if (prober->fam == F_POOL || prober->fam == F_COLL)
+                if (const char* err = prober->walk(r.size, reach))
+                {
+                    fail("foreign-changed-state", std::string("a rejected try_deallocate damaged the free list: ") + err);
+                    return;
+                }
+            check_pattern(v, "after a sibling's rejected try_deallocate");
+            ci.classes.insert("foreign-probe");
+        }
+
         //--- C16: covered invalid releases, each in a forked child ---//
         struct Freed
         {
@@ -2042,8 +2218,18 @@ namespace
             // optional drain, then destruction, then the upstream balance
             unsigned endb = P(9);
             sweep("at the end of the history");
+            for (auto& l : lives2)
+                check_pattern(l, "(sibling's allocation) at the end of the history");
             if (failed)
                 return;
+            if (s2)
+            {
+                for (auto& l : lives2)
+                    by_addr.erase(reinterpret_cast<uintptr_t>(l.p));
+                lives2.clear();
+                s2->destroy_all();
+                s2.reset();
+            }
             bool drain_first = endb % 2 == 0 && s->releasable;
             if (has(O_CONSERVE))
                 drain_first = s->releasable;
@@ -2132,6 +2318,9 @@ namespace
             else if (p == "C07")
                 nt = (iterN >= 2 && n_next_iter >= iterN + 1 && iter_two_alive)
                      || (iterN && ctx.block_size % iterN != 0 && n_alloc_ok >= 2 && n_next_iter >= 1);
+            else if (p == "C08")
+                nt = n_probes >= 1 && !lives.empty() + !lives2.empty() + n_release >= 1
+                     && (n_fail >= 1 || n_probes_adjacent >= 1);
             else if (p == "C12")
                 nt = n_moves_2blocks > 0 && n_ops_after_move >= 2 && n_zombie_destroyed + 1 > 0;
             else if (p == "C15")
@@ -2167,6 +2356,8 @@ namespace
             ci.counters["structure_walks"] += n_walks;
             ci.counters["bad_calls_in_child"] += n_bad_calls;
             ci.counters["bad_calls_not_applicable"] += n_bad_na;
+            ci.counters["foreign_probes"] += n_probes;
+            ci.counters["foreign_probes_adjacent_blocks"] += n_probes_adjacent;
             ci.counters["alloc_ok"] += n_alloc_ok;
             ci.counters["release"] += n_release;
             ci.counters["fail"] += n_fail;
@@ -2233,6 +2424,11 @@ namespace
             if (mode.faults && P(7) % 4 != 0 && s->has_upstream)
                 Slab::get().fail_at(unsigned(up_calls()) + 1 + (P(7) / 4) % 12);
             blocks_peak = own_blocks();
+            if (has(O_SIBLING))
+            {
+                make_sibling(cand, e);
+                adjacent_blocks = P(1) % Slab::n_policies == Slab::adjacent;
+            }
             if (s->fam == F_ITER && has(O_ITER))
             {
                 std::vector<size_t> c;
@@ -2335,6 +2531,15 @@ namespace
                 case K_bad_release:
                     op_bad_release(op);
                     break;
+                case K_sib_alloc:
+                    op_sib_alloc(op);
+                    break;
+                case K_sib_dealloc:
+                    op_sib_dealloc(op);
+                    break;
+                case K_probe_foreign:
+                    op_probe_foreign(op);
+                    break;
                 default:
                     ++ci.noops;
                 }
@@ -2352,7 +2557,10 @@ namespace
             // always leave the process clean for the next case
             Slab::get().fail_at(0);
             if (failed)
+            {
                 (void)s.release(); // state may be corrupt: never run destructors after a violation
+                (void)s2.release();
+            }
             else
                 s.reset();
             return failed ? verdict : Verdict::pass();
